@@ -253,19 +253,20 @@ def check_derived(order, res):
     # "o" and "d" are overridden by the child: the parent's versions (an option that is never supplied, a
     # dataset whose body is counted) are not members of the child and must not be evaluated for it
     Parent = datasetclass(type("Parent", (), {"__annotations__": {"p": int, "o": int, "k": int, "d": int}, "p": Option("P.X"), "o": Option("NEVER"), "k": 1,
-                                              "d": dataset(parent_only)}))
+                                              "d": dataset(parent_only), "u": Option("NEVER2")}))
     # the child adds a member and overrides two inherited ones (an evaluatable and a constant)
     Child = datasetclass(type("Child", (Parent,), {"__annotations__": {"c": int, "o": int, "k": int, "d": int}, "c": Option("C.Y", 0), "o": Option("P.X") >> f_tag, "k": 2,
-                                                   "d": Option("P.X") >> f_tag}))
+                                                   "d": Option("P.X") >> f_tag, "u": 5}))
+    # "u": an UN-annotated evaluatable member of the parent, replaced in the child by an un-annotated plain constant
     dicts = [{"P": {"X": x}, **({"C": {"Y": y}} if y is not None else {})} for x in (1, 2) for y in (None, 5, 6)]
     if order == "parent-first":
         for o in dicts:
-            po = dict(o, NEVER=0)
+            po = dict(o, NEVER=0, NEVER2=0)
             Parent(po), Parent.keys(po), Parent.explain(po), Parent.validate(po)
     if order == "child-first":
         Child(dicts[1])
         for o in dicts:
-            po = dict(o, NEVER=0)
+            po = dict(o, NEVER=0, NEVER2=0)
             Parent(po), Parent.keys(po)
 
     def fail(kind, d, o):
@@ -289,8 +290,8 @@ def check_derived(order, res):
         obj = inst.value
         if ran and order == "child-only":
             fail("overridden-parent-member-was-evaluated", f"the body of the parent's dataset member ran {len(ran)}x although the child overrides that member", o)
-        if obj.p != o["P"]["X"] or obj.c != o.get("C", {}).get("Y", 0) or obj.o != ("f", o["P"]["X"]) or obj.k != 2 or obj.d != ("f", o["P"]["X"]):
-            fail("attribute-differs-from-member-evaluation", f"p={obj.p!r} c={obj.c!r} o={obj.o!r} k={obj.k!r}", o)
+        if obj.p != o["P"]["X"] or obj.c != o.get("C", {}).get("Y", 0) or obj.o != ("f", o["P"]["X"]) or obj.k != 2 or obj.d != ("f", o["P"]["X"]) or obj.u != 5:
+            fail("attribute-differs-from-member-evaluation", f"p={obj.p!r} c={obj.c!r} o={obj.o!r} k={obj.k!r} u={obj.u!r}", o)
         r = restrict(o, want_keys)
         if repr(obj) != f"Child({_ordered(r, want_keys)!r})":
             fail("repr", f"{repr(obj)} vs Child({_ordered(r, want_keys)!r})", o)
